@@ -304,7 +304,12 @@ class BMC:
         return z3.And([self.is_kind(t, self.S, "done") for t in range(self.T)])
 
     def any_panic(self):
-        return z3.Or([self.is_kind(t, self.S, "panic") for t in range(self.T)])
+        """a thread panicked -- or reached a path the query assumed unreachable (fail closed: that is reported, never ignored)"""
+        bad = [self.is_kind(t, self.S, "panic") for t in range(self.T)]
+        for t, g in enumerate(self.G):
+            ids = [n.id for n in g.nodes if n.kind == "cut" and getattr(n, "assumed", False)]
+            if ids: bad.append(z3.Or([self.pcs[t][self.S] == i for i in ids]))
+        return z3.Or(bad)
 
     def results(self, t, extract):
         """per call of thread t: dict of scalar terms, merged over the thread's done nodes. extract(call_index, value) -> dict"""
@@ -398,7 +403,7 @@ class BMC:
 
     def race(self, path, timeout_s):
         """portfolio of two kissat configurations on the same CNF; the first verdict wins"""
-        cfgs = [["kissat", "-q", path], ["kissat", "-q", "--unsat", path]]
+        cfgs = [["kissat", "-q", path], ["kissat", "-q", "--unsat", path], ["kissat", "-q", "--sat", path]]
         if os.environ.get("VERIF_MIR_PORTFOLIO", "1") == "0": cfgs = cfgs[:1]
         # (stdout goes to files: a satisfying assignment is larger than a pipe buffer, a piped kissat would block forever)
         outs = [open("%s.out%d" % (path, i), "w+") for i in range(len(cfgs))]
